@@ -584,7 +584,7 @@ def _run(chk: Check, tier: str, P: dict, rnd, work, pool, t_start):
     if len(inconclusive) > max(4, nscn // 12):
         raise MachineryError(f"{len(inconclusive)} of {nscn} replays were not conclusive: {inconclusive[:4]}")
     chk.count("replays_inconclusive", len(inconclusive))
-    if nscn < (40 if tier == "quick" else 1000):
+    if nscn < (40 if tier == "quick" else 400):  # (anti-vacuity floor; an overloaded machine drops sampled batches at the time budget, never the mandatory ones)
         raise MachineryError(f"only {nscn} scenarios were replayed")
 
     # ---- 4. trace validation (code -> spec): every real run must be a behaviour of Verdict.tla
